@@ -4,6 +4,7 @@ import (
 	"fmt"
 	"go/token"
 	"go/types"
+	"sort"
 	"strings"
 
 	"golang.org/x/tools/go/ssa"
@@ -30,6 +31,7 @@ func isConsuming(n string) bool {
 
 func runC05(c *Ctx) {
 	r := c.R
+	defer ruleReadErrorsPropagate(c, "R5.9")
 	r.NotDecided = append(r.NotDecided,
 		"absence of panics in general and independence from the segmentation as observed behaviours: they follow from R5.1/R5.2/R5.5/R5.8 plus bufio's and io.ReadFull's contracts, which are trusted, not analysed",
 		"the n+1 call bound as an observation")
@@ -192,13 +194,20 @@ func runC05(c *Ctx) {
 	}
 
 	// R5.4 resync
-	r.Rule("R5.4", "on the path to the `invalid magic byte` return nothing but the marker byte is consumed, so a frame marker following junk is seen by the next call", 1)
+	r.Rule("R5.4", "on the path to the `invalid magic byte` return nothing but the marker byte is consumed, so a frame marker following junk is seen by the next call; no other rejection precedes unmarshal", 2)
 	var badRet *ssa.Return
+	nEarly := 0
 	for _, ret := range retInstrs(rd) {
 		if len(ret.Results) == 2 && !isNilConst(ret.Results[1]) && ret.Results[1] != rbErr && len(um) == 1 && !instrDominates(um[0], ret) {
 			badRet = ret
+			nEarly++
 		}
 	}
+	// the unknown-marker return is the only rejection issued before the frame has been consumed: any other rejection
+	// made with just the marker byte read (e.g. "this kind of frame will be refused anyway") leaves the rest of a
+	// well-formed frame in the stream, where its payload bytes are rescanned for markers and can swallow later frames
+	r.Check(nEarly <= 1, "R5.4", "Reader.Read early rejections", c.Pos(rd.Pos()), "only the unknown-marker rejection precedes unmarshal",
+		fmt.Sprintf("%d error returns of Reader.Read are reachable before the frame has been consumed by unmarshal (only the unknown-marker one may be): a frame rejected with only its marker byte read desynchronises the stream", nEarly))
 	if badRet == nil {
 		r.Fail("R5.4", "Reader.Read invalid marker", c.Pos(rd.Pos()), "no error return for an unknown marker byte before unmarshal: junk bytes would be parsed as frames")
 	} else {
@@ -557,4 +566,147 @@ func rulePeekLifetime(c *Ctx, rule, why string) {
 		bad := peekLifetimeProblem(c, fn)
 		r.Check(bad == "", rule, name+" peek lifetime", c.Pos(fn.Pos()), "peeked bytes are copied out before the next read and never escape", bad)
 	}
+}
+
+// ruleReadErrorsPropagate (R5.9): in the frame parsers every failed read ends the parse with that error. For each
+// consuming call (peekAndDiscard, io.ReadFull, ReadByte) of V1Frame.unmarshal / V2Frame.unmarshal: its error is
+// tested (or returned directly), and every return reachable on the failing edge returns an error derived from it.
+// A swallowed read error hands back a frame whose fields do not correspond to the bytes consumed and hides the
+// transport fault from the caller.
+func ruleReadErrorsPropagate(c *Ctx, rule string) {
+	r := c.R
+	r.Rule(rule, "a failed read ends the parse with that error: in V1Frame.unmarshal / V2Frame.unmarshal the error of every consuming call is tested or returned, and every return reachable on its failing edge returns an error derived from it", 2)
+	for _, name := range []string{"V1Frame.unmarshal", "V2Frame.unmarshal"} {
+		fn := c.Fn("pkg/frame", name)
+		if fn == nil {
+			continue
+		}
+		r.Functions[fnQual(fn)] = true
+		bad := ""
+		n := 0
+		for _, ci := range callsIn(fn, func(nm string, _ *ssa.CallCommon) bool { return isConsuming(nm) }) {
+			call, ok := ci.(*ssa.Call)
+			if !ok {
+				continue
+			}
+			ev := errValueOf(call)
+			if ev == nil {
+				continue
+			}
+			n++
+			iff, nonNil, _ := nilGuard(fn, ev)
+			if iff == nil || nonNil == nil {
+				direct := false
+				for _, ret := range retInstrs(fn) {
+					for _, res := range ret.Results {
+						if typeStr(res.Type()) == "error" && errDerivedFrom(res, ev, 0) {
+							direct = true
+						}
+					}
+				}
+				if !direct {
+					bad = "the error of " + calleeName(&call.Call) + " at " + c.Pos(call.Pos()) + " is neither tested nor returned"
+				}
+				continue
+			}
+			reach := reachKnowingNonNil(iff.Block(), nonNil, ev, call.Block())
+			for _, ret := range retInstrs(fn) {
+				if !reach[ret.Block()] {
+					continue
+				}
+				okRet := false
+				for _, res := range ret.Results {
+					if typeStr(res.Type()) == "error" && errDerivedFrom(res, ev, 0) {
+						okRet = true
+					}
+				}
+				if !okRet {
+					bad = fmt.Sprintf("after %s failed (%s) the function can return at %s without reporting that error: the caller receives a frame that does not correspond to the bytes consumed, and the transport fault is lost",
+						calleeName(&call.Call), c.Pos(call.Pos()), c.Pos(ret.Pos()))
+				}
+			}
+		}
+		r.Check(bad == "" && n > 0, rule, name+" read errors", c.Pos(fn.Pos()), fmt.Sprintf("%d consuming calls, each failure is returned", n), orStr(bad, "no consuming call found"))
+	}
+}
+
+// reachKnowingNonNil: the blocks reachable from the edge from→start given that ev is non-nil: values that are ev on
+// the path taken (phis fed by ev) are known non-nil too, and nil tests on them take only their non-nil branch. stop is
+// not entered. (Prunes the infeasible "err was set, yet the following `if err != nil` is false" paths that appear
+// when an error is threaded through a variable.)
+func reachKnowingNonNil(from, start *ssa.BasicBlock, ev ssa.Value, stop *ssa.BasicBlock) map[*ssa.BasicBlock]bool {
+	out := map[*ssa.BasicBlock]bool{}
+	type state struct {
+		b    *ssa.BasicBlock
+		pred *ssa.BasicBlock
+		key  string
+	}
+	seen := map[string]bool{}
+	var dfs func(b, pred *ssa.BasicBlock, known map[ssa.Value]bool, depth int)
+	dfs = func(b, pred *ssa.BasicBlock, known map[ssa.Value]bool, depth int) {
+		if b == stop || depth > 200 {
+			return
+		}
+		// phis of b fed through pred
+		k2 := map[ssa.Value]bool{}
+		for v := range known {
+			k2[v] = true
+		}
+		for _, in := range b.Instrs {
+			p, ok := in.(*ssa.Phi)
+			if !ok {
+				break
+			}
+			for i, pr := range b.Preds {
+				if pr == pred && known[p.Edges[i]] {
+					k2[p] = true
+				}
+			}
+			// a phi not fed by a known value on this path is no longer known
+			fed := false
+			for i, pr := range b.Preds {
+				if pr == pred && known[p.Edges[i]] {
+					fed = true
+				}
+			}
+			if !fed {
+				delete(k2, p)
+			}
+		}
+		var names []string
+		for v := range k2 {
+			names = append(names, v.Name())
+		}
+		sort.Strings(names)
+		key := fmt.Sprintf("%d|%s", b.Index, strings.Join(names, ","))
+		if seen[key] {
+			return
+		}
+		seen[key] = true
+		out[b] = true
+		if iff := blockIf(b); iff != nil {
+			if bo, ok := iff.Cond.(*ssa.BinOp); ok && (bo.Op == token.NEQ || bo.Op == token.EQL) {
+				var x ssa.Value
+				switch {
+				case isNilConst(bo.Y):
+					x = bo.X
+				case isNilConst(bo.X):
+					x = bo.Y
+				}
+				if x != nil && k2[x] {
+					idx := 0 // successor taken when x != nil
+					if bo.Op == token.EQL {
+						idx = 1
+					}
+					dfs(b.Succs[idx], b, k2, depth+1)
+					return
+				}
+			}
+		}
+		for _, s := range b.Succs {
+			dfs(s, b, k2, depth+1)
+		}
+	}
+	dfs(start, from, map[ssa.Value]bool{ev: true}, 0)
+	return out
 }
